@@ -459,8 +459,8 @@ def decide(pid, tier, seed, P, vres, kres, kmeta, vac, t0, evdir):
         print('  failed obligation: %s' % v['obligation'])
     for u in undecided:
         print('UNDECIDED: %s' % u)
-    print('%s %s: %d/%d obligations discharged, %d bounded stand-ins, %d violations, %d undecided, %.0fs'
-          % (pid, tier, discharged, obligations, len(bounded), len(violations), len(undecided), time.time() - t0))
+    print('%s %s: %d/%d obligations discharged, %d bounded stand-ins (%d checks passed within their bounds, not counted as proved), %d violations, %d undecided, %.0fs'
+          % (pid, tier, discharged, obligations, len(bounded), sum(b.get('checks', 0) - b.get('failed', 0) for b in bounded), len(violations), len(undecided), time.time() - t0))
     if violations:
         return 1, ev
     if undecided:
